@@ -7,8 +7,7 @@ for d in sorted(glob.glob(os.path.join(os.path.dirname(os.path.dirname(os.path.a
     r = json.load(open(os.path.join(d, "results.json")))
     caught = [p for p, x in sorted(r.items()) if x["exit"] == 1]
     before = None
-    bf = os.path.join(d, "results_round2_before_strengthening.json")
-    if os.path.exists(bf):
+    for bf in sorted(glob.glob(os.path.join(d, "results_round*_before_strengthening.json"))):
         before = [p for p, x in sorted(json.load(open(bf)).items()) if x["exit"] == 1]
     clean = lambda t: (t or "").replace("\n", " ").replace("|", "/")
     rows.append((os.path.basename(d), m["breaks_property"], clean(m.get("summary"))[:170], clean(m.get("needs_to_manifest"))[:140], caught, before))
